@@ -32,6 +32,7 @@ Record orec := {
 
 Record c09case := {
   k_p : pcfg;
+  k_pushes : bool;          (* false: PushInterval 0 for the whole run (no pushes at all) *)
   k_n : nat;                (* source states incl. Exception *)
   k_norel : bool;           (* relation-free schema *)
   k_err : bool;             (* the harness could not set the pair up / panicked *)
@@ -52,7 +53,8 @@ Definition srcs (l : list snap) : list ev := map Src l.
 
 (* one step of the harness as protocol events; returns the model state and
    the mismatch codes *)
-Definition run_step (p : pcfg) (s : st) (o : orec) : st * list N :=
+Definition run_step (p : pcfg) (pushes : bool) (s : st) (o : orec) : st * list N :=
+  let pushev := if pushes then [Push; Settle] else [] in
   let np := st_npush s in
   let pushes_ok (s' : st) :=
     if N.of_nat (st_npush s' - np) =? o_pushes o then [] else [6] in
@@ -74,14 +76,14 @@ Definition run_step (p : pcfg) (s : st) (o : orec) : st * list N :=
       (s, (if o_timeout o then [] else [4]) ++ (if mir_eqb s (o_mir o) then [] else [3]))
     else if negb parked then (s, [12])
     else
-      let s1 := exec p s (srcs (o_trans o) ++ [Reply] ++ srcs trans2 ++ [Push; Settle]) in
+      let s1 := exec p s (srcs (o_trans o) ++ [Reply] ++ srcs trans2 ++ pushev) in
       let s' := exec p s1 [Write; Settle] in
       let blocked := negb (Nat.eqb (length (st_wire s')) 0) in
       (s', (if mir_eqb s1 mir2 then [] else [9])
            ++ (if Bool.eqb blocked (o_timeout o) then [] else [4])
            ++ (if mir_eqb s' (o_mir o) then [] else [3]) ++ pushes_ok s')
   | OPush =>
-    let s' := exec p s (srcs (o_trans o) ++ [Push; Settle]) in
+    let s' := exec p s (srcs (o_trans o) ++ pushev) in
     (s', (if mir_eqb s' (o_mir o) then [] else [5]) ++ pushes_ok s')
   | OSync =>
     if cl_stuck (st_cl s) then
@@ -96,12 +98,12 @@ Definition run_step (p : pcfg) (s : st) (o : orec) : st * list N :=
          ++ (if mir_eqb s' (o_mir o) then [] else [8]) ++ pushes_ok s')
   end.
 
-Fixpoint run_steps (p : pcfg) (s : st) (l : list orec) : st * list N :=
+Fixpoint run_steps (p : pcfg) (pushes : bool) (s : st) (l : list orec) : st * list N :=
   match l with
   | [] => (s, [])
   | o :: r =>
-    let '(s1, e1) := run_step p s o in
-    let '(s2, e2) := run_steps p s1 r in
+    let '(s1, e1) := run_step p pushes s o in
+    let '(s2, e2) := run_steps p pushes s1 r in
     (s2, e1 ++ e2)
   end.
 
@@ -109,8 +111,8 @@ Definition model_final (k : c09case) : st * list N :=
   let p := k_p k in
   let s0 := init p (k_hello_src k) in
   let e0 := if mir_eqb s0 (k_hello k) then [] else [1] in
-  let '(s1, e1) := run_steps p s0 (k_steps k) in
-  let s2 := exec p s1 [Push; Settle] in
+  let '(s1, e1) := run_steps p (k_pushes k) s0 (k_steps k) in
+  let s2 := exec p s1 (if k_pushes k then [Push; Settle] else []) in
   let e2 := (if mir_eqb s2 (k_final k) then [] else [10])
             ++ (if N.of_nat (st_npush s2 - st_npush s1) =? k_final_pushes k then [] else [6]) in
   (s2, e0 ++ e1 ++ e2 ++ (if st_err s2 then [11] else [])).
@@ -175,12 +177,27 @@ Definition step_viol (k : c09case) (o : orec) : list N :=
 Definition act_viol (k : c09case) (m : omir) : list N :=
   if k_norel k && negb (list_bool_eqb (m_a m) (parities (m_t m))) then [700] else [].
 
+(* without pushes the mirror can only follow through replies and explicit
+   syncs: the quiescence clause applies when no source transition came after
+   the last client-issued mutation / Sync *)
+Fixpoint changed_since (l : list orec) (acc : bool) : bool :=
+  match l with
+  | [] => acc
+  | o :: r =>
+    match o_step o with
+    | OClient _ _ | OSync | ODrop true => changed_since r (o_timeout o)
+    | ORace _ _ _ _ _ => changed_since r true
+    | _ => changed_since r (acc || negb (Nat.eqb (length (o_trans o)) 0))
+    end
+  end.
+
 Definition violations (k : c09case) : list N :=
   if k_err k then [] else
   let c := p_codec (k_p k) in
   let cl := cls k in
   let fin :=
-    if mirror_ok c (s_time (k_final_src k)) (m_t (k_final k)) then []
+    if negb (k_pushes k) && changed_since (k_steps k) false then []
+    else if mirror_ok c (s_time (k_final_src k)) (m_t (k_final k)) then []
     else if activity_ok c (s_time (k_final_src k)) (m_t (k_final k)) then [120] else [100] in
   let ready := if k_ready k && negb (k_exc k) then [] else [600] in
   map (fun d => d + cl)
